@@ -12,8 +12,12 @@ Inductive vtype := VChar | VShort | VCharPtr | VCharPtrPtr | VShortPtr.
 Inductive vmem := MZeropage | MSuperchip | MOnChip | MOther.
 Inductive scheme := S3E | S3EP | SOther.
 
+(** [v_addr]: [Some a] when the variable is a constant-address object whose address [a] is
+    known to the compiler ([unsigned char *const R = 0xff;]: [v.def = Value(Int(a))]), [None]
+    when the linker places it (only the memory class is known) *)
 Record var := mkVar {
-  v_name : string; v_type : vtype; v_const : bool; v_signed : bool; v_mem : vmem; v_size : Z
+  v_name : string; v_type : vtype; v_const : bool; v_signed : bool; v_mem : vmem; v_size : Z;
+  v_addr : option Z
 }.
 
 Inductive exprtype :=
@@ -138,7 +142,15 @@ Definition asm_sel (sch : scheme) (m : mnem) (e : exprtype) (high : bool) : asm_
           else if high && eight then zero
           else if eight && negb (v_const v)
           then AErr "Indirect adressing mode is only available with Y (use Y as array index)"
-          else memop (if high then offset + 1 else offset)%Z true 1 2
+          else
+            let o := (if high then offset + 1 else offset)%Z in
+            (* the offset may push an access based on a constant page-zero address beyond page
+               zero: the assembler then uses the absolute form *)
+            let beyond_zeropage :=
+              v_const v && match v_addr v with Some a => (255 <? a + o)%Z | None => false end in
+            if is_zp v && negb beyond_zeropage
+            then AEmit m sg (mkE (PMem name o IxNone true) 2 (cycles + 1) None)
+            else AEmit m sg (mkE (PMem name o IxNone true) 3 (cycles + 2) None)
       | VCharPtrPtr | VShortPtr =>
           let o := (offset + if high then v_size v else 0)%Z in
           if is_zp v then AEmit m sg (mkE (PMem name o IxNone false) 2 (cycles + 2) None)
@@ -208,11 +220,63 @@ Definition asm_sel (sch : scheme) (m : mnem) (e : exprtype) (high : bool) : asm_
 Definition instr_of (prot : bool) (m : mnem) (e : emitted) : instr :=
   mkI m (print_popnd (e_op e)) (e_cycles e) (e_alt e) (e_bytes e) prot.
 
-(** is the operand's address in page zero?  (what the linker does with memory classes: only
-    Zeropage variables and cctmp live below $100) *)
-Definition popnd_zp (e : exprtype) : bool :=
+(** * The truth side: where the emitted operand's address is *)
+
+(** what the assembler adds to the symbol's address *)
+Definition operand_off (o : operand) : Z :=
+  match o with OMem _ k _ | OInd _ k => k | _ => 0%Z end.
+
+(** is the address of the emitted operand [p] in page zero?  When the variable's address is
+    known ([v_addr v = Some a]) the operand [sym+k] designates address [a+k] and the assembler
+    decides on that number; otherwise only the memory class is known and the linker puts exactly
+    the Zeropage variables (and cctmp) below $100.  Immediate and label operands have no address:
+    the answer is immaterial for them ([resolve] ignores it). *)
+Definition popnd_zp (e : exprtype) (p : popnd) : bool :=
   match e with
   | ETmp _ => true
-  | EAbsolute v _ _ | EAbsoluteX v | EAbsoluteY v => is_zp v
+  | EAbsolute v _ _ | EAbsoluteX v | EAbsoluteY v =>
+      match v_addr v with
+      | Some a => (a + operand_off (operand_of p) <? 256)%Z
+      | None => is_zp v
+      end
   | _ => false
   end.
+
+(** memory class and known address agree: the compiler gives a known address only to constant
+    pointers ([unsigned char *const R = <int>]) and classifies them Zeropage exactly when the
+    value is <= 0xff *)
+Definition var_wf (v : var) : Prop :=
+  match v_addr v with
+  | Some a => (0 <= a)%Z /\ is_zp v = (a <? 256)%Z /\ v_const v = true /\ v_type v = VCharPtr
+  | None => True
+  end.
+
+Definition expr_var (e : exprtype) : option var :=
+  match e with
+  | EAbsolute v _ _ | EAbsoluteX v | EAbsoluteY v => Some v
+  | _ => None
+  end.
+
+Definition expr_wf (e : exprtype) : Prop :=
+  match expr_var e with Some v => var_wf v | None => True end.
+
+(** the generator only requests offsets >= 0 (array subscripts, byte selections) *)
+Definition expr_off_nonneg (e : exprtype) : Prop :=
+  match e with EAbsolute _ _ off => (0 <= off)%Z | _ => True end.
+
+(** the rule before the page-boundary fix: the known address is not consulted, the size is
+    decided from the memory class alone.  It is [asm_sel] on the variable with its address
+    forgotten ([beyond_zeropage] is then [false]). *)
+Definition forget_addr (v : var) : var :=
+  mkVar (v_name v) (v_type v) (v_const v) (v_signed v) (v_mem v) (v_size v) None.
+
+Definition forget_addr_e (e : exprtype) : exprtype :=
+  match e with
+  | EAbsolute v b o => EAbsolute (forget_addr v) b o
+  | EAbsoluteX v => EAbsoluteX (forget_addr v)
+  | EAbsoluteY v => EAbsoluteY (forget_addr v)
+  | _ => e
+  end.
+
+Definition asm_sel_old (sch : scheme) (m : mnem) (e : exprtype) (high : bool) : asm_result :=
+  asm_sel sch m (forget_addr_e e) high.
